@@ -3,8 +3,13 @@
 (* Implementation-shaped specification of repid._runner._Runner +          *)
 (* Worker.run over one queue of an in-memory-like broker, one action per   *)
 (* event-loop step that changes the state the properties talk about:       *)
-(*   consumer loop : consume -> (budget check) -> acquire slot (pause /    *)
-(*                   unpause around a blocked acquire) -> spawn            *)
+(*   consumer      : (brokers with prefetch) fetch: the message is marked  *)
+(*                   in flight -> it is put into the consumer's local      *)
+(*                   queue; (in-memory) taken directly by consume()        *)
+(*   consumer loop : consume: the wrapped call's inner task returns the    *)
+(*                   message (`handing') -> the loop resumes with it ->    *)
+(*                   (budget check) -> acquire slot (pause / unpause       *)
+(*                   around a blocked acquire) -> spawn                    *)
 (*   task          : spawned -> running -> report (ack / nack / requeue)   *)
 (*                   -> done-callback (release slot, count, stop if the    *)
 (*                   messages limit is used up)                            *)
@@ -13,6 +18,15 @@
 (*                   up to the graceful period -> cancel event -> every    *)
 (*                   pending task is cancelled and its message rejected -> *)
 (*                   consumer finish returns what the consumer still holds *)
+(* A stop that arrives between `handing' and the resumption cancels the   *)
+(* loop with the message in nobody's hands (middlewares/wrapper.py awaits  *)
+(* the inner task: its result is discarded with the cancelled caller); a   *)
+(* stop that arrives between fetch and local queue cancels the fetch.      *)
+(* Whether such a message is in flight for good depends on finish():       *)
+(* FinishMode "taken" = everything the consumer took and nobody settled    *)
+(* (in-memory; RabbitMQ after 7eefe93), "local" = only the local queue     *)
+(* (Redis; RabbitMQ before 7eefe93): known finding                         *)
+(* redis-stop-leaves-in-flight is TLC's counter-example to AtReturn.       *)
 (* It models the code AFTER the repairs 70a6e6e / d7fe061 (messages limit  *)
 (* checked before a task is started) and ee8c893 (message returned when    *)
 (* the slot wait is cancelled); switch `Repaired = FALSE` gives the pinned *)
@@ -21,19 +35,21 @@
 (***************************************************************************)
 EXTENDS Integers, Sequences, FiniteSets, TLC
 CONSTANTS Msgs, TL, ML, MaxRetries, Repaired,
-          FinishReturnsHeld   \* TRUE: in-memory consumer (finish() returns what it took); FALSE: Redis/RabbitMQ (only its local queue)
+          Prefetch,     \* 0: consume() takes from the broker itself (in-memory); n > 0: a background fetch keeps up to n messages in a local queue
+          FinishMode    \* "taken" | "local", see above
 
 VARIABLES q, proc, dead, acked, tried,      \* broker: waiting sequence, in flight, dead, acknowledged, attempt counters
           cl, clm,                           \* consumer loop: pc, message in hand
+          fetch, lq, hand,                   \* consumer: message being fetched, local queue, message returned by the inner consume task
           sem, tpc, out,                     \* free slots; per message: task pc, outcome
           processed, started, running,
           stop, cancel, phase
-vars == <<q, proc, dead, acked, tried, cl, clm, sem, tpc, out, processed, started, running, stop, cancel, phase>>
+vars == <<q, proc, dead, acked, tried, cl, clm, fetch, lq, hand, sem, tpc, out, processed, started, running, stop, cancel, phase>>
 None == "none"
 
 Init == /\ q \in {s \in [1..Cardinality(Msgs) -> Msgs] : \A a, b \in DOMAIN s : a # b => s[a] # s[b]}
         /\ proc = {} /\ dead = {} /\ acked = {} /\ tried = [m \in Msgs |-> 0]
-        /\ cl = "consume" /\ clm = None /\ sem = TL
+        /\ cl = "consume" /\ clm = None /\ sem = TL /\ fetch = None /\ lq = <<>> /\ hand = None
         /\ tpc = [m \in Msgs |-> "none"] /\ out = [m \in Msgs |-> "ok"]
         /\ processed = 0 /\ started = 0 /\ running = 0
         /\ stop = FALSE /\ cancel = FALSE /\ phase = "run"
@@ -44,11 +60,24 @@ LimitHit == ML > 0 /\ Budget <= 0
 
 U(vs) == UNCHANGED vs
 StopRequest == /\ ~stop /\ phase = "run" /\ stop' = TRUE
-               /\ U(<<q, proc, dead, acked, tried, cl, clm, sem, tpc, out, processed, started, running, cancel, phase>>)
+               /\ U(<<q, proc, dead, acked, tried, cl, clm, fetch, lq, hand, sem, tpc, out, processed, started, running, cancel, phase>>)
 
-CL_Take == /\ cl = "consume" /\ q # <<>> /\ ~stop
-           /\ proc' = proc \cup {Head(q)} /\ clm' = Head(q) /\ q' = Tail(q) /\ cl' = "got"
-           /\ U(<<dead, acked, tried, sem, tpc, out, processed, started, running, stop, cancel, phase>>)
+(* in-memory: consume() takes the head of the queue itself; its inner task returns it *)
+CL_Take == /\ Prefetch = 0 /\ cl = "consume" /\ q # <<>> /\ ~stop
+           /\ proc' = proc \cup {Head(q)} /\ hand' = Head(q) /\ q' = Tail(q) /\ cl' = "handing"
+           /\ U(<<dead, acked, tried, clm, fetch, lq, sem, tpc, out, processed, started, running, stop, cancel, phase>>)
+(* brokers with prefetch: the background fetch marks a message in flight, then puts it into the local queue *)
+C_Fetch == /\ Prefetch > 0 /\ fetch = None /\ Len(lq) < Prefetch /\ q # <<>> /\ phase # "ret" /\ ~stop
+           /\ proc' = proc \cup {Head(q)} /\ fetch' = Head(q) /\ q' = Tail(q)
+           /\ U(<<dead, acked, tried, cl, clm, lq, hand, sem, tpc, out, processed, started, running, stop, cancel, phase>>)
+C_Local == /\ fetch # None /\ phase # "ret" /\ lq' = Append(lq, fetch) /\ fetch' = None
+           /\ U(<<q, proc, dead, acked, tried, cl, clm, hand, sem, tpc, out, processed, started, running, stop, cancel, phase>>)
+CL_Get == /\ Prefetch > 0 /\ cl = "consume" /\ lq # <<>> /\ ~stop
+          /\ hand' = Head(lq) /\ lq' = Tail(lq) /\ cl' = "handing"
+          /\ U(<<q, proc, dead, acked, tried, clm, fetch, sem, tpc, out, processed, started, running, stop, cancel, phase>>)
+(* the consumer loop resumes with the message *)
+CL_Resume == /\ cl = "handing" /\ ~stop /\ clm' = hand /\ hand' = None /\ cl' = "got"
+             /\ U(<<q, proc, dead, acked, tried, fetch, lq, sem, tpc, out, processed, started, running, stop, cancel, phase>>)
 (* acquire a slot (possibly after waiting), then the budget check of the repaired code, then spawn *)
 CL_Acquire ==
     /\ cl \in {"got", "wait"} /\ ~stop
@@ -62,21 +91,22 @@ CL_Acquire ==
                THEN stop' = TRUE /\ cl' = "ended"             \* budget used up: stop consuming now
                ELSE cl' = "consume" /\ U(<<stop>>)
             /\ U(<<q, proc>>)
-    /\ U(<<dead, acked, tried, out, processed, started, running, cancel, phase>>)
+    /\ U(<<dead, acked, tried, fetch, lq, hand, out, processed, started, running, cancel, phase>>)
 (* consumption stopped: the consume task is cancelled; a message in hand is given back (repair ee8c893) *)
-CL_Cancel == /\ stop /\ cl \in {"consume", "got", "wait"}
+CL_Cancel == /\ stop /\ cl \in {"consume", "handing", "got", "wait"}
              /\ IF clm # None /\ Repaired
                 THEN q' = Append(q, clm) /\ proc' = proc \ {clm}
                 ELSE U(<<q, proc>>)
-             /\ cl' = "ended" /\ clm' = None
-             /\ U(<<dead, acked, tried, sem, tpc, out, processed, started, running, stop, cancel, phase>>)
+             \* (a message the inner consume task has returned but the loop has not resumed with is dropped: nobody holds it)
+             /\ cl' = "ended" /\ clm' = None /\ hand' = None
+             /\ U(<<dead, acked, tried, fetch, lq, sem, tpc, out, processed, started, running, stop, cancel, phase>>)
 
 T_Start(m) == /\ tpc[m] = "spawned" /\ ~cancel
               /\ tpc' = [tpc EXCEPT ![m] = "running"] /\ started' = started + 1 /\ running' = running + 1
               /\ \E o \in {"ok", "fail"} : out' = [out EXCEPT ![m] = o]
-              /\ U(<<q, proc, dead, acked, tried, cl, clm, sem, processed, stop, cancel, phase>>)
+              /\ U(<<q, proc, dead, acked, tried, cl, clm, fetch, lq, hand, sem, processed, stop, cancel, phase>>)
 T_End(m) == /\ tpc[m] = "running" /\ tpc' = [tpc EXCEPT ![m] = "report"] /\ running' = running - 1
-            /\ U(<<q, proc, dead, acked, tried, cl, clm, sem, out, processed, started, stop, cancel, phase>>)
+            /\ U(<<q, proc, dead, acked, tried, cl, clm, fetch, lq, hand, sem, out, processed, started, stop, cancel, phase>>)
 (* ack / nack / requeue are single atomic steps of the (repaired) in-memory broker *)
 T_Report(m) ==
     /\ tpc[m] = "report" /\ m \in proc
@@ -85,30 +115,33 @@ T_Report(m) ==
                  proc' = proc \ {m} /\ q' = Append(q, m) /\ tried' = [tried EXCEPT ![m] = @ + 1] /\ U(<<dead, acked>>)
          [] OTHER -> proc' = proc \ {m} /\ dead' = dead \cup {m} /\ U(<<q, acked, tried>>)
     /\ tpc' = [tpc EXCEPT ![m] = "cb"]
-    /\ U(<<cl, clm, sem, out, processed, started, running, stop, cancel, phase>>)
+    /\ U(<<cl, clm, fetch, lq, hand, sem, out, processed, started, running, stop, cancel, phase>>)
 (* forced cancellation: the task is cancelled wherever it is, its message rejected (if still held) *)
 T_Cancel(m) == /\ cancel /\ tpc[m] \in {"spawned", "running", "report"}
                /\ running' = IF tpc[m] = "running" THEN running - 1 ELSE running
                /\ IF m \in proc THEN proc' = proc \ {m} /\ q' = Append(q, m) ELSE U(<<proc, q>>)
                /\ tpc' = [tpc EXCEPT ![m] = "cb"]
-               /\ U(<<dead, acked, tried, cl, clm, sem, out, processed, started, stop, cancel, phase>>)
+               /\ U(<<dead, acked, tried, cl, clm, fetch, lq, hand, sem, out, processed, started, stop, cancel, phase>>)
 T_Callback(m) == /\ tpc[m] = "cb" /\ sem' = sem + 1 /\ processed' = processed + 1
                  /\ tpc' = [tpc EXCEPT ![m] = IF m \in acked \/ m \in dead THEN "done" ELSE "none"]
                  /\ stop' = (stop \/ (ML > 0 /\ ML - (processed + 1) - (TL - (sem + 1)) <= 0))
-                 /\ U(<<q, proc, dead, acked, tried, cl, clm, out, started, running, cancel, phase>>)
+                 /\ U(<<q, proc, dead, acked, tried, cl, clm, fetch, lq, hand, out, started, running, cancel, phase>>)
 
 Active == {m \in Msgs : tpc[m] \in {"spawned", "running", "report", "cb"}}
 (* finish_gracefully: all tasks done, or the graceful period is over (either may happen) -> cancel event *)
 FG == /\ phase = "run" /\ cl = "ended" /\ phase' = "fin" /\ cancel' = TRUE
-      /\ U(<<q, proc, dead, acked, tried, cl, clm, sem, tpc, out, processed, started, running, stop>>)
+      /\ U(<<q, proc, dead, acked, tried, cl, clm, fetch, lq, hand, sem, tpc, out, processed, started, running, stop>>)
 (* consumers' finish(): what the consumer took and nobody settled goes back *)
+Perms(S) == {t \in [1..Cardinality(S) -> S] : \A a, b \in DOMAIN t : a # b => t[a] # t[b]}
 ConsFinish == /\ phase = "fin" /\ Active = {} /\ phase' = "ret"
-              /\ IF FinishReturnsHeld
-                 THEN /\ \E s \in {t \in [1..Cardinality(proc) -> proc] : \A a, b \in DOMAIN t : a # b => t[a] # t[b]} : q' = q \o s
+              /\ IF FinishMode = "taken"
+                 THEN /\ \E s \in Perms(proc) : q' = q \o s
                       /\ proc' = {}
-                 ELSE U(<<q, proc>>)
-              /\ U(<<dead, acked, tried, cl, clm, sem, tpc, out, processed, started, running, stop, cancel>>)
-Next == StopRequest \/ CL_Take \/ CL_Acquire \/ CL_Cancel \/ FG \/ ConsFinish
+                 ELSE \* only what is in the local queue; the fetch under way is cancelled where it is
+                      /\ q' = q \o lq /\ proc' = proc \ {lq[k] : k \in 1..Len(lq)}
+              /\ lq' = <<>> /\ fetch' = None
+              /\ U(<<dead, acked, tried, cl, clm, hand, sem, tpc, out, processed, started, running, stop, cancel>>)
+Next == StopRequest \/ CL_Take \/ C_Fetch \/ C_Local \/ CL_Get \/ CL_Resume \/ CL_Acquire \/ CL_Cancel \/ FG \/ ConsFinish
         \/ \E m \in Msgs : T_Start(m) \/ T_End(m) \/ T_Report(m) \/ T_Cancel(m) \/ T_Callback(m)
 Spec == Init /\ [][Next]_vars
 
